@@ -19,42 +19,56 @@ class C03(StdCheck):
     exhaustive = True
     required_theorems = ["delivery_only_if", "recovery_ack_recipients", "no_duplicate_problem",
                          "reminder_only_in_hard_unsuppressed_problem", "reminder_spacing", "model_trace_meets_spec"]
-    technique = ("Lean 4 proof (four independent checkers over the observed trace, each tied to the code's bookkeeping attributes by an "
-                 "invariant; composition of BeginExecuteNotification calls; induction over operation sequences); correspondence by "
-                 "exhaustive + random differential execution of Checkable::SendNotifications (through the started NotificationComponent) "
-                 "and NotificationComponent::NotificationTimerHandler (through the real 5 s timer and directly) on real Notification, "
-                 "User, UserGroup, TimePeriod, NotificationCommand, Host/Service objects under the virtual clock")
+    technique = ("Lean 4 proof (five independent checkers over the observed trace, each tied to the code's bookkeeping attributes by an "
+                 "invariant; composition of BeginExecuteNotification calls incl. the replay of stashed requests; induction over operation "
+                 "sequences); correspondence by exhaustive + random differential execution of the path OnNotificationsRequested -> started "
+                 "NotificationComponent -> Checkable::SendNotifications -> BeginExecuteNotification (requests injected and requests raised by "
+                 "the real ProcessCheckResult / FireSuppressedNotifications) and of NotificationTimerHandler (through the real 5 s timer and "
+                 "directly) on real Notification (1-3 per checkable), User, UserGroup, TimePeriod, NotificationCommand, Downtime, Dependency, "
+                 "Host/Service objects under the virtual clock")
     level_text = ("Machine-checked theorems that for every configuration of a notification object (interval, times window, type/state "
-                  "filters), every finite sequence of notification requests (all nine types, forced or not) and timer runs, under arbitrary "
-                  "environments at every step (state, state type, last hard state change, volatile, reachability, downtime, acknowledgement, "
-                  "flapping, pending bits, period bits, enable flags, pause, any list of users with arbitrary enable flags, periods and "
-                  "filters) the model's deliveries satisfy the executable specification of the property's three sentences; the model is tied "
-                  "to the code by running the real functions on generated operation sequences and diffing events, executed commands and "
-                  "the bookkeeping attributes after every operation; the same specification is evaluated on the implementation's own trace")
+                  "filters), every finite sequence of notification requests (all nine types, forced or not, during and after the cold-start "
+                  "phase) and timer runs, under arbitrary environments at every step (state, state type, last hard state change, volatile, "
+                  "reachability, downtime, acknowledgement, flapping, pending bits, period bits, enable flags, pause, object authority, any list "
+                  "of users with arbitrary enable flags, periods and filters) the model's deliveries satisfy the executable specification of the "
+                  "property's three sentences; the model is tied to the code by running the real functions on generated operation sequences "
+                  "and diffing events, executed commands and the bookkeeping attributes of every notification object after every operation; "
+                  "the same specification is evaluated on the implementation's own trace")
     level_note = ("Trusted: Lean kernel (+ propext, Classical.choice, Quot.sound), harness/driver; checkable facts and period open/closed bits "
                   "are oracle inputs read from the implementation. The model transcribes the code after the fix: commit cec0506 for F-C03a "
                   "(known_findings.json, status fixed); all three sentences are proved without hypothesis. 'Current incident' is read as: since "
                   "the last Recovery the notification object sent or discarded by its type filter - a Recovery merely withheld by the closed "
-                  "notification period does not end it (it is re-sent later to exactly the incident's users). Reminder spacing is stated for "
-                  "stretches without a hard state change and with a monotone clock (Q-C03).")
+                  "notification period does not end it (it is re-sent later to exactly the incident's users). The third sentence's 'neither "
+                  "suppressed' is read to cover a Problem that is still held back: no reminder while the checkable's Problem bit is pending "
+                  "(after a suppression) and none in a timer run after which the notification object still holds a Problem back (after a closed "
+                  "period) - clause no_reminder_while_the_initial_problem_is_held_back. Reminder spacing is stated for stretches without a hard "
+                  "state change and with a monotone clock (Q-C03); only unforced Problems start a spacing obligation.")
     trusted_base = [
-        "modelled, not verified: command execution itself, cluster sync of the bookkeeping attributes, cold-start stashing "
-        "(stashed_notifications), several notification objects per checkable (each object is independent in the code)",
-        "the reminder flag of a Problem sent by the timer is not observable on the implementation; the harness labels a timer Problem as "
-        "non-reminder iff the notification object's Problem bit was pending before the run and it is the first Problem of that run",
+        "modelled, not verified: command execution itself, cluster sync of the bookkeeping attributes; several notification objects per "
+        "checkable are independent copies of the one-object model (the harness checks that independence on 1-3 real objects)",
+        "labels that are not observable on the implementation: (a) the reminder flag of a Problem sent by the timer - the harness labels it "
+        "non-reminder iff it replays a stashed request, or the object's Problem bit was pending before the run and it is the first unlabelled "
+        "Problem of that run; (b) the force flag of an event - the harness writes it into the request's text field (which travels through "
+        "the stash to OnNotificationSentToAllUsers; for stashed requests the code raised itself it labels the stash entries before the timer "
+        "run), unlabelled events take force_next_notification as read before the call",
         "'no duplicate Problem for the same state' is read as: not for the state of the Problem the user was sent last (WARNING, CRITICAL, "
         "WARNING without a Recovery are three legitimate notifications)",
+        "notification_number is reset by ProcessCheckResult outside the modelled code; the driver takes the implementation's value after "
+        "every real check result ('z' lines)",
     ]
     assumptions = ["integer timestamps", "the period and the checkable facts do not change during one handler run",
                    "user ids are distinct (std::set of users)"]
     rule = ("corpus/C03/*.ops, then exhaustive: every sequence of 4 (thorough: 5) operations over {Problem, Recovery, Acknowledgement request, "
             "timer +60 s, timer +1 s, hard CRITICAL, hard OK, notification period close/open, user 1 disable/enable, force} after a hard CRITICAL, "
-            "followed by a fixed tail, x host/service x interval {0, 60}; plus seeded random cases (10000 of <= 30 / thorough 100000 of <= 60 "
-            "operations): random filters, times windows, intervals {0, 1, 60, 300}, 1-4 users (direct / via a user group / both / not attached), "
-            "user and notification periods, all nine types, forced requests, state changes, downtime, acknowledgement, flapping, "
-            "unreachability, pending bits, enable flags, pause, imminent check, timer through the pump and directly at arbitrary virtual "
-            "times. evaluations = requests + timer operations; a case is non-trivial when a command was executed for at least one user "
-            "(counted by the Lean driver)")
+            "followed by a fixed tail, x host (two notification objects) / service x interval {0, 60}; plus seeded random cases (10000 of <= 30 / "
+            "thorough 100000 of <= 60 operations): 1-3 notification objects per checkable with random filters, times windows, intervals "
+            "{0, 1, 60, 300} and periods, 1-4 users attached directly / via one or both of the object's user groups (overlapping membership) / "
+            "not at all, user periods, all nine types, forced requests, state changes by setters or (35% of the cases) through the real "
+            "ProcessCheckResult with max_check_attempts 1-3 (requests raised by the code, incl. flapping and FireSuppressedNotifications), "
+            "downtime, acknowledgement, flapping, unreachability, pending bits, enable flags, pause, imminent check, cold-start phase (15% of "
+            "the cases: requests stashed, queued behind the stash, replayed in order or dropped by a paused object), timer through the pump and "
+            "directly at arbitrary virtual times. evaluations = (requests + timer operations) x notification objects; a case is non-trivial "
+            "when a command was executed for at least one user (counted by the Lean driver)")
 
     def collect(self, res, lines, save, harness, driver):
         bad = [l for l in lines if l.startswith("BADLINE")]
